@@ -624,7 +624,7 @@ class RemoteStreamFlowPath(
                         status, command, self.location, result
                     )
                 )
-            return result.strip()
+            return result.strip() if status == 0 else None
 
     async def chmod(self, mode: int, *, follow_symlinks=True):
         if (inner_path := await self._get_inner_path()) != self:
